@@ -216,6 +216,26 @@ def check_batch(ctx, g, u, stream):
         for k, i in enumerate(kept):
             lines.append(f"geoalong {f2h(R)} {ev_hex(arr[i], True)} {f2h(s)}")
             lines.append(f"geoalongres {f2h(R)} {f2h(arr[i,10])} {f2h(arr[i,11])} {f2h(arr[i,9])} {f2h(latP[k])} {f2h(lonP[k])} {f2h(s)}")
+    # ---- one distance per trajectory, zeros and non-zeros mixed (some events still at their ground spot, others further along):
+    # every event gets the position the same distance gave it when it was the distance of all events
+    if len(kept) >= 2 and len(results) == len(S_VALUES):
+        pick = np.arange(len(kept)) % len(S_VALUES)
+        dist = np.array([S_VALUES[j] for j in pick], dtype=np.float64)
+        ctx.count("along_traj_mixed_distances")
+        try:
+            latM, lonM = (np.asarray(x, dtype=np.float64) for x in g.find_lat_long_along_traj(dist))
+            wantLat = np.array([results[j][0][k] for k, j in enumerate(pick)]); wantLon = np.array([results[j][1][k] for k, j in enumerate(pick)])
+            okM = latM.shape == (len(kept),) and lonM.shape == (len(kept),) and np.allclose(latM, wantLat, rtol=0, atol=1e-12) \
+                and np.allclose(np.cos(lonM - wantLon), 1.0, rtol=0, atol=1e-12)
+            errM = None
+        except Exception as ex:  # noqa: BLE001
+            okM, errM = False, f"{type(ex).__name__}: {str(ex)[:120]}"
+        if not okM:
+            kb = 0 if errM or latM.shape != (len(kept),) else int(np.nonzero(~(np.isclose(latM, wantLat, rtol=0, atol=1e-12) & np.isclose(np.cos(lonM - wantLon), 1.0, rtol=0, atol=1e-12)))[0][0])
+            ctx.violation("RegionGeom.find_lat_long_along_traj", "position-depends-on-the-other-events-distances",
+                          errM or "with one distance per trajectory (zeros and non-zeros mixed) an event is not where the same distance puts it when all events share it",
+                          {"cfg": list(g._verif_cfg), "stream": stream, "distances_km": dist[:12].tolist(), "event": int(kb),
+                           "distance_of_event_km": float(dist[kb]), "u_hex_event": fh(u[:, kept[kb]])})
     out = run_driver_sharded(lines)
     # source tie: `find_lat_long_along_traj` as translated from the source, on the kept events' own attributes
     for si, s in enumerate(S_VALUES):
